@@ -596,11 +596,23 @@ static void op_dimension_loaded(obuf *o, const uint64_t *v, size_t n, int arg) {
      * written cell by cell */
     static const int SH[4][2] = {{4, 10}, {4, 20}, {6, 9}, {3, 7}};
     static uint8_t MAT[2048];
-    int R = SH[arg & 3][0], C = SH[arg & 3][1], dbl = arg >> 2;
+    int R = SH[arg & 3][0], C = SH[arg & 3][1], dbl = (arg >> 2) & 1, bit = (arg >> 3) & 1;
     size_t ew = dbl ? 8 : 2;
     uint8_t stored[2048];
     memset(stored, 0, sizeof stored);
-    varintDimensionPair dim = varintDimensionPairEncode(stored, (size_t)R, (size_t)C);
+    /* the header bytes of every shape are produced once, before any matrix is accessed: between two "loaded matrix"
+     * operations no library function other than the cell accessors runs */
+    static uint8_t HDR[4][8];
+    static varintDimensionPair HDIM[4];
+    static int hdr_ready = 0;
+    if (!hdr_ready) {
+        for (int k = 0; k < 4; k++) {
+            HDIM[k] = varintDimensionPairEncode(HDR[k], (size_t)SH[k][0], (size_t)SH[k][1]);
+        }
+        hdr_ready = 1;
+    }
+    memcpy(stored, HDR[arg & 3], 2);
+    varintDimensionPair dim = HDIM[arg & 3];
     for (size_t i = 0; i < (size_t)(R * C) * ew; i++) {
         stored[2 + i] = (uint8_t)(i * 7 + v[i % n]);
     }
@@ -608,7 +620,9 @@ static void op_dimension_loaded(obuf *o, const uint64_t *v, size_t n, int arg) {
     o_u64(o, (uint64_t)dim);
     for (int r = 0; r < R; r++) {
         for (int c = 0; c < C; c++) {
-            if (dbl) {
+            if (bit) {
+                o_u64(o, (uint64_t)varintDimensionPairEntryGetBit(MAT, (size_t)r, (size_t)c, dim));
+            } else if (dbl) {
                 double d = varintDimensionPairEntryGetDouble(MAT, (size_t)r, (size_t)c, dim);
                 uint64_t bits;
                 memcpy(&bits, &d, 8);
@@ -620,7 +634,10 @@ static void op_dimension_loaded(obuf *o, const uint64_t *v, size_t n, int arg) {
     }
     for (int r = R - 1; r >= 0; r--) {
         for (int c = 0; c < C; c += 2) {
-            if (dbl) {
+            if (bit) {
+                varintDimensionPairEntrySetBit(MAT, (size_t)r, (size_t)c, (r + c) % 3 != 0, dim);
+                o_u64(o, (uint64_t)varintDimensionPairEntryToggleBit(MAT, (size_t)r, (size_t)(C - 1 - c / 2), dim));
+            } else if (dbl) {
                 varintDimensionPairEntrySetDouble(MAT, (size_t)r, (size_t)c, 0.5 + r * 100 + c, dim);
             } else {
                 varintDimensionPairEntrySetUnsigned(MAT, (size_t)r, (size_t)c, (uint64_t)(r * 1000 + c), VARINT_WIDTH_16B, dim);
@@ -690,6 +707,11 @@ static void op_large(obuf *o, const uint64_t *unused, size_t unused_n, int arg) 
         memset(&bm, 0, sizeof bm);
         w = varintBP128Encode64(ENCL, v, n, &bm);
         r = varintBP128Decode64(ENCL, DECL, n);
+        /* the count header (3 bytes for 10500 values) asked for with every available-byte count around it */
+        for (size_t sb = 0; sb <= 5; sb++) {
+            o_u64(o, varintBP128GetCount(ENCL, sb));
+        }
+        o_u64(o, varintBP128GetCount(ENCL, w));
         break;
     }
     }
@@ -773,6 +795,9 @@ static void build_ops(void) {
     add("dimension.loaded u16 matrix 6x9", op_dimension_loaded, 2, 4, 0);
     add("dimension.loaded double matrix 3x7", op_dimension_loaded, 3 | 4, 4, 0);
     add("dimension.loaded double matrix 4x10", op_dimension_loaded, 0 | 4, 4, 0);
+    add("dimension.loaded bit matrix 4x10", op_dimension_loaded, 0 | 8, 4, 0);
+    add("dimension.loaded bit matrix 4x20", op_dimension_loaded, 1 | 8, 4, 0);
+    add("dimension.loaded bit matrix 6x9", op_dimension_loaded, 2 | 8, 4, 0);
     /* 10500-element inputs (input index is irrelevant for them: they read INL) */
     add("large adaptive analyse+encode [stride-10 constant]", op_large, 0, 1, 0);
     add("large adaptive analyse+encode [scattered]", op_large, 1, 1, 0);
